@@ -44,6 +44,7 @@ type GenCfg struct {
 	ArgExprPct                                                                                 int    // chance that a command argument is an {expression} (default 35)
 	StopArgs                                                                                   bool   // model-free C12 worlds: <<stop now>>, <<stop {1 + 1}>>
 	ExprOnlyLines                                                                              bool   // model-free worlds: some lines are nothing but {an expression}
+	NoStringSelfGrowth                                                                         bool   // model-free worlds: no string variable on the right of a string assignment
 	NoLongLines                                                                                bool   // C05/C20: every base script is loaded hundreds of times - long lines come as stream cases there
 	HostFnWrites                                                                               bool   // <<call pw("n0", e)>>: a host function that writes a variable while the script runs
 	BigRoundsPct                                                                               int    // share of hub worlds whose loop runs 126-300 rounds
@@ -581,7 +582,31 @@ func (g *gen) set() *Stmt {
 	case 's':
 		op = []string{"=", "+="}[g.tp.Int(0, 1, "setop")]
 	}
-	return &Stmt{K: sSet, Var: v, Op: op, E: g.expr(ty, g.cfg.ExprDepth), Spell: g.tp.Int(0, 1, "sp")}
+	e := g.expr(ty, g.cfg.ExprDepth)
+	if ty == 's' && g.cfg.NoStringSelfGrowth {
+		// model-free worlds have no model to stop a program that doubles or triples a string every round (a
+		// program doing what it says, at 3^30 bytes): there the right-hand side of a string assignment is
+		// built from literals and calls only
+		g.stripStringVars(e)
+	}
+	return &Stmt{K: sSet, Var: v, Op: op, E: e, Spell: g.tp.Int(0, 1, "sp")}
+}
+
+func (g *gen) stripStringVars(e *Expr) {
+	if e == nil {
+		return
+	}
+	if e.K == eVar {
+		for _, v := range append(append([]string{}, g.vars[2]...), g.jvars...) {
+			if e.S == v {
+				*e = Expr{K: eStr, S: "sv"}
+				return
+			}
+		}
+	}
+	for _, a := range e.A {
+		g.stripStringVars(a)
+	}
 }
 
 func (g *gen) declare() *Stmt {
